@@ -520,6 +520,10 @@ func c16Specs() []cfg.Spec {
 				s.XHTML = x
 				s.Rich = true
 				out = append(out, s)
+				// the id prefix given twice with different values: to NewFootnote and as a renderer option (the renderer option is
+				// in force, for references, items and back-links alike), plus a prefix function that must stay unused
+				s.Rich3 = true
+				out = append(out, s)
 			}
 		}
 	}
